@@ -2,7 +2,7 @@
    SHA-1 is uninterpreted: the model records the bytes that are hashed
    (m_hash_input); the harness checks hash = SHA-1(those bytes) with hashlib. *)
 From Coq Require Import String.
-From Rdest Require Import Base BCodec DeepFinder Metainfo InfoSpec MetaProofs.
+From Rdest Require Import Base BCodec BGrammar BProofs DeepFinder Metainfo InfoSpec MetaProofs FinderProofs.
 Open Scope N_scope.
 
 (* FULL STATEMENT (false of the code, see the refutations below):
@@ -35,8 +35,47 @@ Proof. split; vm_compute; reflexivity. Qed.
 Theorem C05_refuted_truncated : is_ok (metainfo_of (hx "64383a616e6e6f756e6365333a55524c343a696e666f64343a6e616d65313a6131323a7069656365206c656e677468693465363a70696563657332303a4141414141424242424243434343434444444444363a6c656e677468693565")) = true /\ hashed_span_ok (hx "64383a616e6e6f756e6365333a55524c343a696e666f64343a6e616d65313a6131323a7069656365206c656e677468693465363a70696563657332303a4141414141424242424243434343434444444444363a6c656e677468693565") = false.
 Proof. split; vm_compute; reflexivity. Qed.
 
-(* PARTIAL (not proved in general): outside those classes the hashed bytes are the
-   exact span.  Here: one non-trivial instance (extra keys before and after info,
+(* THE SCANNER, COMPLETELY: on every document that starts with a well-formed dictionary (any nesting depth, any
+   key order, leading-zero lengths, anything after it) find_first returns exactly what the four-line search tfind_es
+   returns on the document's entry tree -- the exact text of the value it stops at, byte for byte. *)
+Theorem C05_search_spec : forall key es trailing, wf_es es ->
+  match tfind_es key es with
+  | Some x => find_first key (text_v (TDict es) ++ trailing) = Some x
+  | None => trailing = [] -> find_first key (text_v (TDict es) ++ trailing) = None
+  end.
+Proof. exact find_first_spec. Qed.
+
+(* OUTSIDE THE NESTED-KEY CLASS: for every document the strict grammar accepts as one dictionary and the client
+   accepts as a torrent, if no entry before the first top-level "4:info" holds a dictionary containing that key at
+   some depth, then what is hashed is exactly the text of the first top-level info value -- the exact span of the
+   file.  (With a repeated top-level info key this is the first one, while the decoder keeps the last: the
+   duplicate-info finding; a truncated tail is not a well-formed document: the truncated-tail finding.) *)
+Theorem C05_exact_span : forall doc d m, WfSeq doc [BDict d] -> metainfo_of doc = Ok m ->
+  exists es, wf_es es /\ doc = text_v (TDict es) /\
+    (~ nested_before key_info_raw es -> forall x, shallow key_info_raw es = Some x -> m_hash_input m = x).
+Proof.
+  intros doc d m Hw Hm. destruct (find_first_exact_value doc d key_info_raw [] Hw) as (es & Hes & E & _).
+  exists es. split; [exact Hes|]. split; [exact E|]. intros Hn x Hx.
+  pose proof (C05_hash_input doc m Hm) as H1.
+  pose proof (find_first_spec key_info_raw es [] Hes) as F. rewrite app_nil_r in F.
+  rewrite (tfind_shallow key_info_raw es Hn), Hx in F. rewrite <- E in F. rewrite F in H1. injection H1 as ->. reflexivity.
+Qed.
+(* every strictly decodable one-dictionary document is such a tree *)
+Theorem C05_documents_are_trees : forall doc d, decode_strict doc = Ok [BDict d] ->
+  exists es, wf_es es /\ doc = text_v (TDict es).
+Proof. intros doc d H. apply decode_strict_iff in H. exact (dict_document_tree doc d H). Qed.
+
+(* non-vacuity: a tree with an entry before info, a nested dictionary without the key, a leading-zero length inside
+   info; premises hold and the answer is the info value's text *)
+Example C05_tree_instance :
+  let es := TCons (hx "313a61") (TDict (TCons (hx "313a78") (TAtom (hx "693165")) TNil))
+              (TCons (hx "343a696e666f") (TDict (TCons (hx "30343a6e616d65") (TAtom (hx "313a61")) TNil)) TNil) in
+  ~ nested_before key_info_raw es /\ shallow key_info_raw es = Some (hx "6430343a6e616d65313a6165") /\
+  find_first key_info_raw (text_v (TDict es)) = Some (hx "6430343a6e616d65313a6165") /\
+  exists d, decode_strict (text_v (TDict es)) = Ok [BDict d].
+Proof. cbv zeta. split; [vm_compute; tauto|]. split; [vm_compute; reflexivity|]. split; [vm_compute; reflexivity|]. eexists. vm_compute. reflexivity. Qed.
+
+(* Here additionally: one non-trivial instance of the comparison with the independent span splitter (extra keys before and after info,
    non-canonical key order and a leading-zero length inside info, trailing data). *)
 Example C05_instance : hashed_span_ok (hx "64373a636f6d6d656e74343a74657874383a616e6e6f756e6365333a55524c343a696e666f64363a6c656e677468693565343a6e616d65313a6131323a7069656365206c656e677468693465363a7069656365733032303a414141414142424242424343434343444444444465333a7a7a7a6c6931656565353a747261696c") = true.
 Proof. vm_compute. reflexivity. Qed.
@@ -45,3 +84,6 @@ Print Assumptions C05_hash_input.
 Print Assumptions C05_refuted_nested_info.
 Print Assumptions C05_refuted_duplicate_info.
 Print Assumptions C05_refuted_truncated.
+Print Assumptions C05_search_spec.
+Print Assumptions C05_exact_span.
+Print Assumptions C05_documents_are_trees.
